@@ -3,6 +3,8 @@ package main
 // E5 - PAIR: acquire/release on all exits.
 
 import (
+	"strings"
+	"go/types"
 	"fmt"
 
 	"golang.org/x/tools/go/ssa"
@@ -172,11 +174,14 @@ func pairAcquireRelease(c *Check, rule string, fn *ssa.Function, isAcquire func(
 			for _, ret := range returnsOf(fn) {
 				transfers := false
 				for _, rv := range ret.Results {
-					if derivesFrom(rv, r) {
+					// the caller becomes the owner only if what it gets can still be released:
+					// a value computed from the resource (a row read from an accessor) is not a hand-over
+					if derivesFrom(rv, r) && (typeHasMethod(p, rv.Type(), method) || types.Identical(rv.Type(), r.Type())) {
 						transfers = true
 					}
 				}
-				if !transfers {
+				// a release in the return's own block precedes the return
+				if !transfers && !release[ret.Block()] {
 					targets[ret.Block()] = true
 				}
 			}
@@ -230,4 +235,17 @@ func calleeNameCI(ci ssa.CallInstruction) string {
 		return f.Name()
 	}
 	return "?"
+}
+
+// typeHasMethod: t (or *t) has a method of that name in its method set.
+func typeHasMethod(p *Program, t types.Type, name string) bool {
+	for _, tt := range []types.Type{t, types.NewPointer(t)} {
+		ms := p.SSA.MethodSets.MethodSet(tt)
+		for i := 0; i < ms.Len(); i++ {
+			if strings.EqualFold(ms.At(i).Obj().Name(), name) {
+				return true
+			}
+		}
+	}
+	return false
 }
